@@ -362,7 +362,7 @@ pub struct Ctx<C: Cv> {
     pub split_done: RefCell<bool>,
     pub ncb_run: RefCell<usize>,
     pub record: bool,
-    pub cap: usize,
+    pub cap: std::cell::Cell<usize>,
     /// verify-only runs (fixtures): the commitments handed to the verifier, in order, instead of recomputing them
     pub given_commits: RefCell<VecDeque<C::G>>,
 }
@@ -766,7 +766,84 @@ pub fn make_pc<C: Cv>(spec: &PcSpec) -> PedersenGens<C::G> {
     PedersenGens { B: b, B_blinding: bb }
 }
 
+/// Mirror of BulletproofGens with the same derive layout (its vectors are private).
+#[derive(Clone, CanonicalSerialize, CanonicalDeserialize)]
+pub struct GensM<G: AffineRepr> {
+    pub gens_capacity: usize,
+    pub party_capacity: usize,
+    pub g_vec: Vec<Vec<G>>,
+    pub h_vec: Vec<Vec<G>>,
+}
+
+/// the table a side hands to prove / verify: built by the side's generator history (default: new(cap, 1)).
+/// With `events`, every step is recorded with the table it left behind (all parties' chains) or the view it returned.
+pub fn make_bp<C: Cv>(side: &Side, role: &str, mut events: Option<&mut Vec<Value>>) -> BulletproofGens<C::G> {
+    if side.gh.is_empty() {
+        return BulletproofGens::<C::G>::new(side.cap, 1);
+    }
+    let mut bp: Option<BulletproofGens<C::G>> = None;
+    for op in &side.gh {
+        let mut ev = json!({"ev": "gens", "role": role});
+        match op {
+            GOp::New { cap, parties } => {
+                bp = Some(BulletproofGens::<C::G>::new(*cap, *parties));
+                ev["g"] = json!("new");
+                ev["argcap"] = json!(cap);
+                ev["argparties"] = json!(parties);
+            }
+            GOp::Inc { cap } => {
+                bp.as_mut().expect("table").increase_capacity(*cap);
+                ev["g"] = json!("inc");
+                ev["argcap"] = json!(cap);
+            }
+            GOp::Ser => {
+                let b = ser_c(bp.as_ref().expect("table"));
+                bp = Some(BulletproofGens::<C::G>::deserialize_compressed(&b[..]).expect("gens round trip"));
+                ev["g"] = json!("ser");
+            }
+            GOp::Clone => {
+                let c = bp.as_ref().expect("table").clone();
+                bp = Some(c);
+                ev["g"] = json!("clone");
+            }
+            GOp::View { kind, n, m } => {
+                let t = bp.as_ref().expect("table");
+                let r = catch_unwind(AssertUnwindSafe(|| -> Vec<Value> {
+                    if kind == "G" { t.G(*n, *m).map(enc_p::<C>).collect() } else { t.H(*n, *m).map(enc_p::<C>).collect() }
+                }));
+                ev["g"] = json!("view");
+                ev["kind"] = json!(kind);
+                ev["n"] = json!(n);
+                ev["m"] = json!(m);
+                match r {
+                    Ok(v) => ev["ret"] = Value::Array(v),
+                    Err(p) => ev["panic"] = json!(panic_msg(p)),
+                }
+            }
+        }
+        if let Some(evs) = events.as_deref_mut() {
+            let t = bp.as_ref().expect("table");
+            ev["cap"] = json!(t.gens_capacity);
+            ev["parties"] = json!(t.party_capacity);
+            if !matches!(op, GOp::View { .. }) {
+                // the stored table itself, read through a mirror of the struct's derived layout (not through the view iterators)
+                let raw = GensM::<C::G>::deserialize_with_mode(&ser_c(t)[..], Compress::Yes, Validate::No).expect("gens mirror layout");
+                let tab = |v: &Vec<Vec<C::G>>| Value::Array(v.iter().map(|row| Value::Array(row.iter().map(enc_p::<C>).collect())).collect());
+                ev["G"] = tab(&raw.g_vec);
+                ev["H"] = tab(&raw.h_vec);
+                ev["rawcap"] = json!(raw.gens_capacity);
+                ev["rawparties"] = json!(raw.party_capacity);
+            }
+            evs.push(ev);
+        }
+    }
+    bp.expect("generator history without new")
+}
+
 fn gens_json<C: Cv>(g: &Gens<C>) -> Value {
+    if g.bp.party_capacity == 0 {
+        return json!({"B": enc_p::<C>(&g.pc.B), "Bb": enc_p::<C>(&g.pc.B_blinding), "G": [], "H": []});
+    }
     let gv: Vec<Value> = g.bp.G(g.bp.gens_capacity, 1).map(enc_p::<C>).collect();
     let hv: Vec<Value> = g.bp.H(g.bp.gens_capacity, 1).map(enc_p::<C>).collect();
     json!({"B": enc_p::<C>(&g.pc.B), "Bb": enc_p::<C>(&g.pc.B_blinding), "G": gv, "H": hv})
@@ -831,7 +908,7 @@ fn new_ctx<C: Cv>(
         split_done: RefCell::new(false),
         ncb_run: RefCell::new(0),
         record,
-        cap: side.cap,
+        cap: std::cell::Cell::new(side.cap),
         given_commits: RefCell::new(VecDeque::new()),
     })
 }
@@ -867,7 +944,8 @@ pub fn run_prover<C: Cv>(
     record: bool,
 ) -> ProverOut<C> {
     let pc = make_pc::<C>(&side.pc);
-    let bp = BulletproofGens::<C::G>::new(side.cap, 1);
+    let mut gens_events = vec![];
+    let bp = make_bp::<C>(side, "P", if record { Some(&mut gens_events) } else { None });
     merlin::trace::start();
     ark_bulletproofs::verif_hooks::start_recording_challenges();
     let mut t = Transcript::new(leak(&side.label));
@@ -875,6 +953,8 @@ pub fn run_prover<C: Cv>(
         t.append_message(leak(l), d);
     }
     let cx = new_ctx::<C>("P", side, t.verif_tid(), consts, commits, wide, pc, record);
+    cx.cap.set(bp.gens_capacity);
+    cx.events.borrow_mut().extend(gens_events);
     let mut ext = ExtRng::new(seed);
     let result = {
         let cxr = cx.clone();
@@ -920,7 +1000,7 @@ pub fn run_prover<C: Cv>(
                             }
                         };
                         if cxe.record {
-                            cxe.events.borrow_mut().push(json!({"ev":"prove1","role":"P","cap":cxe.cap,"rng":draws_json::<C>(&draws),"rng_ok":draws.is_some(),"tx":ops}));
+                            cxe.events.borrow_mut().push(json!({"ev":"prove1","role":"P","cap":cxe.cap.get(),"rng":draws_json::<C>(&draws),"rng_ok":draws.is_some(),"tx":ops}));
                         }
                     };
                     run_cb(rcs, k, &cxc, &hk, &first)
@@ -953,7 +1033,7 @@ pub fn run_prover<C: Cv>(
     };
     let _ = cx.tx.borrow_mut().drain();
     merlin::trace::stop();
-    let mut ev = json!({"ev": if split {"prove2"} else {"prove"}, "role":"P", "cap": side.cap,
+    let mut ev = json!({"ev": if split {"prove2"} else {"prove"}, "role":"P", "cap": bp.gens_capacity,
                         "rng": draws_json::<C>(&draws), "rng_ok": draws.is_some(), "tx": ops, "res": res, "ext_taken": ext.taken,
                         "ncb": *cx.ncb_run.borrow()});
     if let Some(p) = &proof {
@@ -1021,7 +1101,8 @@ pub fn run_verifier<C: Cv>(
     record: bool,
 ) -> VerifierOut {
     let pc = make_pc::<C>(&side.pc);
-    let bp = BulletproofGens::<C::G>::new(side.cap, 1);
+    let mut gens_events = vec![];
+    let bp = make_bp::<C>(side, "V", if record { Some(&mut gens_events) } else { None });
     merlin::trace::start();
     ark_bulletproofs::verif_hooks::start_recording_challenges();
     let mut t = Transcript::new(leak(&side.label));
@@ -1029,6 +1110,8 @@ pub fn run_verifier<C: Cv>(
         t.append_message(leak(l), d);
     }
     let cx = new_ctx::<C>("V", side, t.verif_tid(), consts, commits, wide, ppc, record);
+    cx.cap.set(bp.gens_capacity);
+    cx.events.borrow_mut().extend(gens_events);
     let result = {
         let cxr = cx.clone();
         let tr = &mut t;
@@ -1039,7 +1122,7 @@ pub fn run_verifier<C: Cv>(
             let first: Rc<dyn Fn()> = Rc::new(move || {
                 let ops = cxe.tx.borrow_mut().drain();
                 if cxe.record {
-                    cxe.events.borrow_mut().push(json!({"ev":"verify1","role":"V","cap":cxe.cap,"tx":ops}));
+                    cxe.events.borrow_mut().push(json!({"ev":"verify1","role":"V","cap":cxe.cap.get(),"tx":ops}));
                 }
             });
             let verifier = build_verifier::<C>(side, tr, &cx, first);
@@ -1058,7 +1141,7 @@ pub fn run_verifier<C: Cv>(
     };
     let _ = cx.tx.borrow_mut().drain();
     merlin::trace::stop();
-    let ev = json!({"ev": if split {"verify2"} else {"verify"}, "role":"V", "cap": side.cap, "tx": ops, "res": res,
+    let ev = json!({"ev": if split {"verify2"} else {"verify"}, "role":"V", "cap": bp.gens_capacity, "tx": ops, "res": res,
                     "ncb": *cx.ncb_run.borrow()});
     let mut events = std::mem::take(&mut *cx.events.borrow_mut());
     if record {
@@ -1083,8 +1166,8 @@ pub fn wide_factor<C: Cv>(prog: &Program) -> Option<Fr<C>> {
 pub fn setup_event<C: Cv>(prog: &Program) -> Value {
     let ps = &prog.p;
     let vs = prog.vside();
-    let gp = Gens::<C> { pc: make_pc::<C>(&ps.pc), bp: BulletproofGens::new(ps.cap, 1) };
-    let gv = Gens::<C> { pc: make_pc::<C>(&vs.pc), bp: BulletproofGens::new(vs.cap, 1) };
+    let gp = Gens::<C> { pc: make_pc::<C>(&ps.pc), bp: make_bp::<C>(ps, "P", None) };
+    let gv = Gens::<C> { pc: make_pc::<C>(&vs.pc), bp: make_bp::<C>(vs, "V", None) };
     let pt = C::G::generator();
     json!({"ev":"setup","curve":C::NAME,"id":prog.id,"P":gens_json(&gp),"V":gens_json(&gv),
            "ptlen": ser_u(&pt).len(), "sclen": ser_u(&Fr::<C>::one()).len(),
@@ -1118,13 +1201,41 @@ pub fn run_program<C: Cv>(prog: &Program, record: bool) -> RunOut<C> {
         let bytes = proof.to_bytes().expect("to_bytes");
         out.proof_bytes = Some(bytes.clone());
         out.proof = Some(m.clone());
-        let wire = if prog.tamper.is_empty() { bytes.clone() } else { apply_edits::<C>(&m, &prog.tamper) };
+        let mut wire = if prog.tamper.is_empty() { bytes.clone() } else { apply_edits::<C>(&m, &prog.tamper) };
+        if prog.bytes {
+            // byte-level session: what the encoder produced, what the adversary put on the wire, what the decoder is handed
+            if record {
+                let (toks, trail) = crate::wire::tokenize::<C>(&bytes);
+                events.push(json!({"ev":"encode","role":"P","len":bytes.len(),"toks":toks,"trail":trail,
+                                   "again": proof.to_bytes().map(|b| b == bytes).unwrap_or(false)}));
+            }
+            wire = crate::wire::apply_bedits::<C>(&wire, &prog.btamper);
+            if record && wire != bytes {
+                let (toks, trail) = crate::wire::tokenize::<C>(&wire);
+                events.push(json!({"ev":"wirebytes","role":"A","len":wire.len(),"toks":toks,"trail":trail}));
+            }
+        }
         out.wire_bytes = Some(wire.clone());
         let decoded = catch_unwind(AssertUnwindSafe(|| R1CSProof::<C::G>::from_bytes(&wire)));
+        if prog.bytes && record {
+            let mut ev = json!({"ev":"decodeb","role":"V"});
+            match &decoded {
+                Ok(Ok(pf)) => {
+                    ev["res"] = json!("ok");
+                    ev["proof"] = proof_json::<C>(&ProofM::from_real(pf));
+                    // an encoder output decodes to a proof that re-encodes to the same bytes; for adversarial bytes only the decoded object is
+                    // constrained (arkworks accepts e.g. an identity point with stray x bits: it decodes to the identical object)
+                    ev["reenc"] = json!(wire != bytes || pf.to_bytes().map(|b| b == wire).unwrap_or(false));
+                }
+                Ok(Err(e)) => ev["res"] = json!(err_name(e)),
+                Err(_) => ev["res"] = json!("panic"),
+            }
+            events.push(ev);
+        }
         match decoded {
             Ok(Ok(pf)) => {
                 out.decode = "ok".into();
-                if !prog.tamper.is_empty() && record {
+                if !prog.tamper.is_empty() && record && !prog.bytes {
                     events.push(json!({"ev":"wire","role":"A","proof":proof_json::<C>(&ProofM::from_real(&pf)),
                                        "same": ser_c(&pf) == bytes}));
                 }
@@ -1136,7 +1247,7 @@ pub fn run_program<C: Cv>(prog: &Program, record: bool) -> RunOut<C> {
             }
             Ok(Err(e)) => {
                 out.decode = err_name(&e).to_string();
-                if record {
+                if record && !prog.bytes {
                     events.push(json!({"ev":"decode","role":"A","res":out.decode}));
                 }
             }
@@ -1184,7 +1295,7 @@ pub fn verify_only<C: Cv>(side: &Side, proof_bytes: &[u8], commits: Vec<C::G>, c
             let first: Rc<dyn Fn()> = Rc::new(move || {
                 let ops = cxe.tx.borrow_mut().drain();
                 if cxe.record {
-                    cxe.events.borrow_mut().push(json!({"ev":"verify1","role":"V","cap":cxe.cap,"tx":ops}));
+                    cxe.events.borrow_mut().push(json!({"ev":"verify1","role":"V","cap":cxe.cap.get(),"tx":ops}));
                 }
             });
             let verifier = build_verifier::<C>(side, tr, &cxr, first);
